@@ -13,6 +13,9 @@ import TTModel.Kernels
 import TTModel.Cross
 import TTModel.Manifold
 import TTModel.Decomp
+import TTModel.DecompM
+import TTModel.Permute
+import TTModel.Reshape
 import TTModel.Scalar
 /-!
 # Line-protocol driver: one operation per input line, one canonical outcome per output line.
@@ -327,12 +330,39 @@ def run : PM String := do
       let total := dims.foldl (· * ·) 1
       let A : Nat → S := fun j => f (unflat dims j total)
       pure (showTT false ((Decomp.toTT (Decomp.idOracle cap) dims A).map freeze))
+  | "mattott" => do
+      let cap ← nat; let M ← natList; let N ← natList; let (dims, f) ← dense
+      let total := dims.foldl (· * ·) 1
+      let A : Nat → S := fun j => f (unflat dims j total)
+      pure (showTT true ((Decomp.toTTM (Decomp.idOracle cap) M N A).map freeze))
+  | "lrorthm" => do
+      let (_, x) ← tt
+      pure (showTT true ((Decomp.lrOrthM (Decomp.idOracle 1000000) x).map freeze))
+  | "roundttm" => do
+      let cap ← nat; let (_, x) ← tt
+      pure (showTT true ((Decomp.roundTTM (Decomp.idOracle 1000000) (Decomp.idOracle cap) x).map freeze))
   | "lrorth" => do
       let (_, x) ← tt
       pure (showTT false ((Decomp.lrOrth (Decomp.idOracle 1000000) x).map freeze))
   | "roundtt" => do
       let cap ← nat; let (_, x) ← tt
       pure (showTT false ((Decomp.roundTT (Decomp.idOracle 1000000) (Decomp.idOracle cap) x).map freeze))
+  | "permutett" => do
+      let cap ← nat; let dims ← natList; let (_, x) ← tt
+      pure (showTT false (Permute.permuteTTWith freeze (Decomp.idOracle 1000000) (Decomp.idOracle cap) dims x))
+  | "reshapett" => do
+      let cap ← nat; let dst ← natList; let (_, x) ← tt
+      match Reshape.reshapeTTWith freeze (Decomp.idOracle 1000000) (Decomp.idOracle cap) dst x with
+      | some r => pure (showTT false (r.map freeze))
+      | none => pure "none"
+  | "reshapecores" => do
+      let cap ← nat; let dst ← natList; let (_, x) ← tt
+      match Reshape.reshapeCoresWith freeze (Decomp.idOracle 1000000) (Decomp.idOracle cap) dst x with
+      | some r => pure (showTT false (r.map freeze))
+      | none => pure "none"
+  | "rlorth" => do
+      let (_, x) ← tt
+      pure (showTT false ((Permute.rlOrth (Decomp.idOracle 1000000) x).map freeze))
   | "delta2cores" => do
       let (k, ls) ← tt; let (_, rs) ← tt; let (_, ds) ← tt
       pure (showTT k ((Manifold.delta2cores ls rs ds).map freeze))
